@@ -38,12 +38,13 @@ CLAIM = dict(
     "acceptance matrix re-tabulated from the running code on every run (every documented formulation constructs and completes a "
     "linear_solve with the direct back-end, 'pressure' with all three back-ends, no accepted spelling falls through the "
     "branches); the hand-written CSC row/column removal is modelled array-operation by array-operation (np.arange/where/unique/"
-    "delete, index shift, indptr loop, unique, assert); csc_surgery_dense_partial proves, for arbitrary data, that its output "
-    "represents the matrix with rows/columns {k, last} dropped whenever the sparsity pattern passes the decidable certificate "
-    "surgeryCheck, and cached_pattern_reuse proves that the data-only refresh of later calls is the surgery of the new matrix; the "
-    "certificate (and the structural hypothesis patternOk of the unproved general statement) is evaluated by the model on the "
-    "pattern of every one of the 186 C07-range shapes in the thorough tier, where the model's arrays are also compared exactly "
-    "with the implementation's "
+    "delete, index shift, indptr loop, unique, assert) and csc_surgery_dense / csc_surgery_toDense prove IN GENERAL (every "
+    "well-formed pattern = decidable patternOk, arbitrary data) that it succeeds, removes two columns and represents the matrix with "
+    "rows/columns {k, last} dropped (proof per numpy step: rm_indices characterisation, the indptr loop leaves the number of kept "
+    "positions, np.unique merges exactly the two emptied columns, np.delete restricted to a column, row index shift); "
+    "cached_pattern_reuse proves that the data-only refresh of later calls is the surgery of the new matrix; patternOk is evaluated "
+    "by the model on the pattern of every one of the 186 C07-range shapes in the thorough tier, where the model's arrays are also "
+    "compared exactly with the implementation's "
     "(position tags as data). Public tie: every usable formulation x back-end solves "
     "random systems (positive face weights over three decades, zero-mean source) with an exact-arithmetic residual against the "
     "original full system within the stated tolerance, agrees pairwise and with the model's exact rational solution, and keeps "
